@@ -9,6 +9,7 @@ import Driver.CmdMatch
 import Driver.CmdSize
 import Driver.CmdRun
 import Driver.CmdAnalyse
+import Driver.CmdIso
 /-! Command table of the replay driver (model instantiated at `Float`). -/
 namespace Driver
 open RQ.F
@@ -67,6 +68,9 @@ def dispatch (toks : List String) : String :=
   | some r => r
   | none =>
   match cmdAnalyse toks with
+  | some r => r
+  | none =>
+  match cmdIso toks with
   | some r => r
   | none => "ERR unknown-command"
 
